@@ -253,7 +253,7 @@ fn core(ctx: &mut Ctx) {
     ctx.subject(&name);
     let b = ctx.cfg.bs;
     let w = ctx.cfg.par;
-    let (iv, ivc) = wl::ctr_iv(&mut ctx.rng, fl, b);
+    let (iv, ivc) = stream_iv(ctx, fl, b);
     let (n, _) = wl::nblocks(&mut ctx.rng, w, b, ctx.tier);
     let n = n.max(1);
     let cut = ctx.rng.range(0, n);
